@@ -77,6 +77,10 @@ class Concurrency:
         self._target = int(target)
 
     async def __aenter__(self):
+        # Refuse at once; otherwise with no free slot the caller would queue, and stay queued for
+        # as long as the target is zero because each exit then retires its slot
+        if self._target <= 0:
+            raise ExcessiveSessionCostError
         await self._semaphore.acquire()
         await self._retarget_semaphore()
 
